@@ -42,6 +42,13 @@ fn common_classes(case: &Case, an: &Analysis, stats: &mut Stats) {
   if !stats.live { return; }
   stats.class_n("sessions", case.hist.steps.iter().filter(|s| matches!(s, Step::Session { .. })).count() as u64);
   stats.class_n("changes", case.hist.steps.iter().filter(|s| matches!(s, Step::Change { .. })).count() as u64);
+  for st in &case.hist.steps {
+    if let Step::Session { builds } = st {
+      let n_bu = builds.iter().filter(|b| matches!(b, Build::BottomUp { .. })).count();
+      if n_bu >= 2 { stats.class("session_with_two_bottom_up_builds"); }
+      if n_bu >= 1 && matches!(builds.first(), Some(Build::TopDown(_))) { stats.class("session_with_top_down_before_bottom_up"); }
+    }
+  }
   let mut execs = 0u64;
   let mut reused = 0u64;
   let mut checks = 0u64;
@@ -62,6 +69,7 @@ fn common_classes(case: &Case, an: &Analysis, stats: &mut Stats) {
       if b.facts.bu_nested_drain { stats.class("bottom_up_with_nested_drain"); }
       if b.facts.bu_first_required { stats.class("bottom_up_with_first_time_require"); }
       if b.facts.bu_cutoff { stats.class("bottom_up_with_cutoff"); }
+      if b.facts.bu_over_report { stats.class("bottom_up_report_names_unchanged_resource"); }
       if b.executed.len() >= 2 { stats.class("bottom_up_executing>=2"); }
     }
     if b.panic.is_some() { stats.class("aborted_builds"); }
@@ -233,6 +241,8 @@ pub fn bu_cfg(t: Tier) -> GenCfg {
   let mut c = GenCfg::for_tier(t);
   c.bottom_up = true;
   c.bottom_up_weight = 5;
+  c.over_report = true;
+  c.mixed_sessions = true;
   c
 }
 
@@ -256,8 +266,11 @@ fn c03_judge(case: &Case, run: &Run, an: &Analysis, stats: &mut Stats) -> CheckR
     let stale: Vec<(TaskId, DepTarget)> = an.stale_before_bu.get(&bu).cloned().unwrap_or_default();
     let bu_exec = an.bu_executed.get(&bu).cloned().unwrap_or_default();
     let stale_tasks: BTreeSet<TaskId> = stale.iter().map(|x| x.0).filter(|t| !bu_exec.contains(t)).collect();
-    for b in an.builds.iter().filter(|b| b.session == si) {
+    // Within the bottom-up session itself only builds after its first bottom-up build are judged.
+    let first_bu = an.builds.iter().filter(|b| b.session == si).position(|b| matches!(b.kind, BuildKind::BottomUp(_)));
+    for (k, b) in an.builds.iter().filter(|b| b.session == si).enumerate() {
       if matches!(b.kind, BuildKind::BottomUp(_)) { continue; }
+      if let Some(f) = first_bu { if k < f { continue; } }
       let executed_known: Vec<TaskId> = b.executed.iter().cloned().filter(|t| b.completed_before.contains(t)).collect();
       let mismatch = an.findings.iter().find(|f| f.session == si && f.build == b.build && (f.tag == "c01-output" || f.tag == "c01-state"));
       if executed_known.is_empty() && mismatch.is_none() { continue; }
